@@ -23,7 +23,7 @@ def obligations(tier):
     obs = []
 
     def add(name, fn, builder, t=3000, **params):
-        obs.append({"name": name, "harness": H + fn, "builder": H + builder, "params": params, "timeout_s": t, "rank": True,
+        obs.append({"name": name, "harness": H + fn, "builder": H + builder, "params": params, "timeout_s": min(t, 2400), "rank": True,
                     "query_timeout_ms": 300000 if tier == "quick" else 900000})
     sets = [[1], [2], [1, 1], [1, 2], [2, 2]]
     if tier != "quick":
